@@ -28,6 +28,11 @@ def shapes(lo: int = 1, hi: int = 8, square: bool = False):
     return st.one_of(sq, sq, ob, ob, ob, thin)
 
 
+def medium_shapes():
+    """further shapes whose graphs can still be enumerated completely (thorough tiers): <= 13 lattice edges"""
+    return [(1, 4), (4, 1), (1, 5), (5, 1), (2, 4), (4, 2), (2, 5), (5, 2)]
+
+
 def small_shapes(maxcells_bits: int = 12):
     """all shapes (r,c), r,c>=1, with at most `maxcells_bits` lattice edges... used for exhaustive runs"""
     out = []
